@@ -8,12 +8,13 @@ may carry a pending pair).  Flattened, that is a list of steps applied after the
 
     S @ y  =  stepₙ ( … step₁ ( slice core y ) … )        stepᵢ ∈ { P' @ · ,  a ∘ · }
 
-The functions `rop` / `chain` / `Slicer.transpose` follow the PROPERTY (a second pending operation is
-composed with the first one, the transpose of a chain is the reversed chain of transposes); the functions
-`ropNow` / `chainNow` / `transposeNow` are the code as it is today, which *overwrites* / *drops* an
-already pending operation (known findings `pending-overwritten`, `transpose-drops-pending`); they agree
-whenever the right operand carries no pending operation (theorems `ropNow_eq`, `chainNow_eq`,
-`transposeNow_eq` in Props.lean).
+The functions `rop` / `chain` / `Slicer.transpose` are the code as it is now (repair a33b43101: the earlier pending pairs
+are kept in `_pending_inner`, filled by `copy()`, and all of them are applied in order; the transpose of a chain
+is the reversed chain of transposes, a pending number / array operation cannot be transposed: `ValueError`).
+`ropNow` / `chainNow` / `transposeNow` are the code BEFORE that repair, which overwrote / dropped an already
+pending operation; they agree whenever the right operand carries no pending operation (`ropNow_eq`,
+`chainNow_eq`, `transposeNow_eq` in Props.lean).  `Slicer.transposeProj` is the operator-level wrapper
+`pp.ad.Projection.transpose()`; `Slicer.forbidden` the unsupported operations of the class.
 
 Slicing itself is modelled branch for branch:
   * `_slice_vector`:  `x[dom]` (onto) or `vec = zeros(range_size); vec[ran] = x[dom]` (sequential
@@ -458,7 +459,24 @@ def Slicer.transpose (S : Slicer) : Except Err Slicer :=
     | some T => .ok T
     | none => .error .valueError
 
-/-! ### the code as it is today (an already pending operation is overwritten / dropped) -/
+/-- `pp.ad.Projection.transpose` (the operator-level wrapper): the transposed slicer is built by the constructor from the
+    public index / size properties, so its `is_transposed` flag is `False`; the flag never influences slicing
+    (`applyCore_flag_irrelevant`). -/
+def Core.clearFlag (c : Core) : Core := { c with transposed := false }
+
+def Step.clearFlag : Step → Step
+  | .proj c => .proj c.clearFlag
+  | s => s
+
+def Slicer.transposeProj (S : Slicer) : Except Err Slicer :=
+  match S.transpose with
+  | .ok T => .ok { core := T.core.clearFlag, pending := T.pending.map Step.clearFlag }
+  | .error e => .error e
+
+/-- `S * x`, `S / x`, `S + x`, `S - x`, `S ** x`, `-S`, and `S @ x` for an `x` of unsupported type: always `ValueError` -/
+def Slicer.forbidden (_S : Slicer) : Err := .valueError
+
+/-! ### the code before repair a33b43101 (an already pending operation was overwritten / dropped) -/
 
 def ropNow (S : Slicer) (a : Const) (op : BinOp) : Slicer := { core := S.core, pending := [.left a op] }
 def chainNow (S0 S1 : Slicer) : Slicer := { core := S1.core, pending := .proj S0.core :: S0.pending }
@@ -489,6 +507,7 @@ inductive Stmt where
   | rop (i j : Nat) (a : Const) (op : BinOp)           -- S_i = a ∘ S_j
   | chain (i j k : Nat)                                -- S_i = S_j @ S_k
   | apply (j : Nat) (y : Val)                          -- output S_j @ y
+  | transpP (i j : Nat)                                -- S_i = slicer of `Projection(S_j).transpose()`
 
 abbrev Env := List (Nat × Slicer)
 
@@ -504,6 +523,7 @@ def build (env : Env) : Stmt → Option (Nat × Except Err Slicer)
   | .transp i j => some (i, lookup env j >>= Slicer.transpose)
   | .rop i j a op => some (i, (fun S => rop S a op) <$> lookup env j)
   | .chain i j k => some (i, do let S0 ← lookup env j; let S1 ← lookup env k; pure (chain S0 S1))
+  | .transpP i j => some (i, lookup env j >>= Slicer.transposeProj)
   | .apply _ _ => none
 
 /-- one statement, parameterised by how a slicer is applied (`Slicer.apply` for the model,
@@ -540,11 +560,25 @@ def Core.WF (c : Core) : Prop :=
 def Core.Good (c : Core) : Prop :=
   c.WF ∧ c.dom.Nodup ∧ (∀ j ∈ c.dom, j < c.domSize)
 
+/-- decidable form of `Core.WF` / `Core.Good` (evaluated by the driver on every constructed slicer) -/
+def Core.wfB (c : Core) : Bool :=
+  c.dom.length == c.ran.length && decide c.ran.Nodup && c.ran.all (· < c.ranSize) &&
+  (!c.isOnto || (c.ran == List.range c.dom.length && c.ranSize == c.dom.length))
+
+def Core.goodB (c : Core) : Bool := c.wfB && decide c.dom.Nodup && c.dom.all (· < c.domSize)
+
 def Step.Good : Step → Prop
   | .proj c => c.Good
   | .left _ _ => True
 
 def Slicer.Good (S : Slicer) : Prop := S.core.Good ∧ ∀ s ∈ S.pending, s.Good
+
+def Step.WF : Step → Prop
+  | .proj c => c.WF
+  | .left _ _ => True
+
+/-- all geometries of the slicer are well-formed (enough as long as nothing is transposed) -/
+def Slicer.WF (S : Slicer) : Prop := S.core.WF ∧ ∀ s ∈ S.pending, s.WF
 
 def Env.Good (env : Env) : Prop := ∀ p ∈ env, p.2.Good
 
@@ -556,6 +590,32 @@ def DVal.Shaped : DVal → Prop
   | _ => True
 
 def Val.Shaped (y : Val) : Prop := (obs y).Shaped
+
+def rowsB (m : Nat) (X : Mat) : Bool := X.all (fun row => row.length == m)
+
+/-- decidable form of `Val.Shaped` -/
+def Val.shapedB : Val → Bool
+  | .arr m X => rowsB m X
+  | .sp (.dense m X) => rowsB m X
+  | .ad _ (.dense m X) => rowsB m X
+  | _ => true
+
+/-- decidable input condition of `run_eq_specRun`: every constructed geometry is good, every operand rectangular -/
+def progGoodB : List Stmt → Bool
+  | [] => true
+  | .new _ d r rs ds :: ss => (match mkCore d r rs ds with | .ok c => c.goodB | .error _ => true) && progGoodB ss
+  | .apply _ y :: ss => y.shapedB && progGoodB ss
+  | _ :: ss => progGoodB ss
+
+/-- decidable input condition of `run_eq_specRun_wf`: no transposition in the program, every constructed geometry
+    well-formed (repeated DOMAIN indices allowed), every operand rectangular -/
+def progWfB : List Stmt → Bool
+  | [] => true
+  | .new _ d r rs ds :: ss => (match mkCore d r rs ds with | .ok c => c.wfB | .error _ => true) && progWfB ss
+  | .apply _ y :: ss => y.shapedB && progWfB ss
+  | .transp _ _ :: _ => false
+  | .transpP _ _ :: _ => false
+  | _ :: ss => progWfB ss
 
 /-- every slicer constructed by `new` in the program has a good geometry, every operand is rectangular -/
 def ProgGood : List Stmt → Prop
